@@ -62,6 +62,13 @@ PARAMS = {
                               {"diffusivity": 0.03, "drag": -0.05}),
     "NavierStokesVelocity": (3, lambda ex, p, dt: ex.stepper.NavierStokesVelocity(3, 3.0, 5, dt, diffusivity=p["diffusivity"], order=ORDER[0]),
                              {"diffusivity": 0.03}),
+    # the drag of the Navier-Stokes classes AT ITS DEFAULT VALUE 0.0 (2-D vorticity, 3-D velocity, forced 3-D velocity)
+    "NavierStokesVelocity@drag0": (3, lambda ex, p, dt: ex.stepper.NavierStokesVelocity(3, 3.0, 5, dt, diffusivity=p["diffusivity"], drag=p["drag"], order=ORDER[0]),
+                                   {"diffusivity": 0.03, "drag": 0.0}),
+    "KolmogorovFlowVelocity@drag0": (3, lambda ex, p, dt: ex.stepper.KolmogorovFlowVelocity(3, 3.0, 5, dt, diffusivity=p["diffusivity"], drag=p["drag"], order=ORDER[0]),
+                                     {"diffusivity": 0.03, "drag": 0.0}),
+    "NavierStokesVorticity@drag0": (2, lambda ex, p, dt: ex.stepper.NavierStokesVorticity(2, 3.0, 8, dt, diffusivity=p["diffusivity"], drag=p["drag"], order=ORDER[0]),
+                                    {"diffusivity": 0.03, "drag": 0.0}),
     # coefficient lists in which terms are SWITCHED OFF by an exact zero (the usual way to write them): the derivative
     # with respect to a coefficient whose value is exactly 0.0 is as well defined as anywhere else
     "GeneralLinearStepper": (2, lambda ex, p, dt: ex.stepper.generic.GeneralLinearStepper(
@@ -77,7 +84,7 @@ PARAMS = {
         1, 3.0, 12, dt, linear_coefficients=(p["a0"], p["a1"], 0.03), convection_scale=p["b"], order=ORDER[0]),
         {"a0": 0.0, "a1": 0.0, "b": 0.0}),
 }
-CHANNELS = {"Wave": 2, "GrayScott": 2, "NavierStokesVelocity": 3}
+CHANNELS = {"Wave": 2, "GrayScott": 2, "NavierStokesVelocity": 3, "NavierStokesVelocity@drag0": 3, "KolmogorovFlowVelocity@drag0": 3}
 
 
 def probe_param_derivatives(name, seed, order=2):
@@ -204,7 +211,8 @@ def oracle(ctx, deep):
     if not deep:
         names = [n for i, n in enumerate(names) if (i + ctx.seed) % 2 == 0] + ["Wave", "NavierStokesVorticity", "GeneralLinearStepper",
                                                                                  "NormalizedLinearStepper", "GeneralNonlinearStepper@0"]
-        for nm, od in (("Burgers", 1), ("KuramotoSivashinsky", 1), ("KortewegDeVries", 4), ("Burgers@stiff", 3), ("Burgers@stiff", 2 + 2 * (ctx.seed % 2))):   # fixed: every order family appears
+        for nm, od in (("Burgers", 1), ("KuramotoSivashinsky", 1), ("KortewegDeVries", 4), ("Burgers@stiff", 3), ("Burgers@stiff", 2 + 2 * (ctx.seed % 2)),
+                       ("NavierStokesVelocity@drag0", 2), ("KolmogorovFlowVelocity@drag0", 1 + ctx.seed % 4), ("NavierStokesVorticity@drag0", 1 + (ctx.seed + 1) % 4)):   # fixed: every order family appears
             r = probe_param_derivatives(nm, ctx.seed, od)
             ctx.count(("oracle_derivatives", nm, od))
             if not r["ok"]:
